@@ -25,7 +25,12 @@
     A firing is the Tell of a SchedulerMessage to the receiver ([Scheduler.tell]); [Context.onScheduler]
     replaces the envelope's message by the wrapped one, so the behaviour sees the original payload:
     a [firing] record carries the payload, the receiver, the instant and whether the receiver was dead
-    at that instant (then the Tell ends as a dead letter). *)
+    at that instant (then the Tell ends as a dead letter).
+    In THIS model a firing is atomic (pop, Tell and arrival in one step).  Timer/SchedFlight.v refines it: [fired] is
+    then the list of POPS, and the Tell arrives in a step of its own, at any later time; it also gives the stop
+    sequence its phases.  [ODied a] / [ORestarted a] are the END of the stop sequence (killed_handler.go
+    cleanupScheduler runs after the actor's own OnKilled handler): scheduler calls made by the handlers of the stop
+    sequence are ordinary ops of a BEFORE that step. *)
 From Coq Require Import List NArith ZArith Bool.
 From stdpp Require Import gmap.
 Local Open Scope Z_scope.
